@@ -42,7 +42,7 @@ def run(ctx):
             ok2 = bool(outs) and all(g.always_after(i, outs, [g.exit], follow_exc=False) for i in g.nodes_of(a))
             c.ob("R1", ok2, f, "output-recorded-with-done", "the machine output is recorded on the same path that sets 'done'" if ok2 else
                  "status is set to 'done' on a path that does not record the output", a)
-    c.floor("R1", "assignments of status='done'", n_done, 1)
+    c.expect("R1", "assignments of status='done'", n_done, 1, p.method("BaseInterpreter", "_complete"), "nothing sets the status to 'done' any more: a machine whose root reaches a final state keeps running")
     # ---- R2 send()/send_events() enqueue nothing when done/error/stopped ------------
     n = 0
     for v in VIEWS:
@@ -71,7 +71,7 @@ def run(ctx):
                 ok = not (pre & TERMINAL)
                 c.ob("R2", ok, f, "drain-only-when-live", "the queue is drained only while live" if ok else
                      f"{f.short} drains the queue in status {sorted(pre & TERMINAL)}", call)
-    c.floor("R2", "enqueue sites in send/send_events", n, 4)
+    c.expect("R2", "enqueue sites in send/send_events", n, 4, roles(ctx, "Interpreter").send, "send()/send_events() of one engine no longer enqueue the event: accepted events are lost")
     # ---- R3 stop()'s early return covers only uninitialized/stopped ------------------
     for v in VIEWS:
         st = roles(ctx, v).stop
@@ -79,7 +79,7 @@ def run(ctx):
         flow = status_flow(st)
         rets = [n for n in g.nodes if n.kind == "stmt" and isinstance(n.ast, ast.Return)]
         early = [n for n in rets if n.ast.lineno < (status_assigns(st, "stopped")[0].lineno if status_assigns(st, "stopped") else 10**9)]
-        c.floor("R3", f"early return in {st.short}", len(early), 1)
+        c.expect("R3", f"early return in {st.short}", len(early), 1, st, f"{st.short} has no early return for an interpreter that is already stopped or was never started: stop() is not idempotent (plugins notified twice, teardown of a machine that never ran)")
         for n in early:
             pre = flow.get(n.id, frozenset())
             ok = pre <= {"uninitialized", "stopped"}
@@ -89,7 +89,7 @@ def run(ctx):
     # ---- R4 history children are not regions ----------------------------------------
     isd = p.method("BaseInterpreter", "_is_state_done")
     loops = [l for l in own_nodes(isd.node) if isinstance(l, ast.For) and "states.values()" in norm(l.iter)]
-    c.floor("R4", "region loops in _is_state_done", len(loops), 1)
+    c.expect("R4", "region loops in _is_state_done", len(loops), 1, isd, "_is_state_done no longer examines every region of a parallel state")
     for l in loops:
         rets = [x for s in l.body for x in ast.walk(s) if isinstance(x, ast.Return)]
         ok = bool(rets) and all(any(atom_is_type_test(a, "history") is False for a in guards_at(isd, x)) for x in rets)
@@ -105,14 +105,14 @@ def run(ctx):
     for v in VIEWS:
         r = roles(ctx, v)
         callers = res.callers_of(r.done_check, v, r.funcs)
-        c.floor("R5", f"callers of the done check ({v})", len(callers), 1)
+        c.expect("R5", f"callers of the done check ({v})", len(callers), 1, r.enter, f"under {v} entering a final state no longer evaluates completion: onDone never fires and a top-level final state does not end the machine")
         for s in callers:
             ok = s.func.qualname == r.enter.qualname and any(atom_is_type_test(a, "final") is True for a in guards_at(s.func, s.call))
             c.ob("R5", ok, s.func, "done-check-on-final-entry", "completion is evaluated exactly when a final state is entered" if ok else
                  f"{s.func.short} evaluates completion outside 'a final state was just entered'", s.call)
         dc = r.done_check
         comps = self_calls_in(dc, "_complete")
-        c.floor("R5", f"_complete calls in {dc.short}", len(comps), 2)
+        c.expect("R5", f"_complete calls in {dc.short}", len(comps), 2, dc, f"{dc.short} no longer completes the machine on both output paths (machine-level output / final state's own output)")
         for call in comps:
             uses_machine_output = "machine_output" in norm(call)
             pol = None
